@@ -153,25 +153,34 @@ theorem multiply_correct {G : Type} [AddCommGroup G] [Module F G] (base : G) (en
   exact ⟨ss, rs, sS, sR, h1, h2, h3⟩
 end ring
 
-/-- **The additive-OT receiver as coded is NOT correct for every batch** (finding): the masking loops
-    of `AdditiveOTReceiver.Round2` take their bound from pad number `j` (the byte counter). On an
-    honest message (all pads 32 bytes) they stay in range iff the batch has at least 33 pads; for
-    every smaller batch the receiver panics. `additive_sum` above is about the scalar-level function
-    the loop computes when it is in range (the only use in the library, the multiplication, has 672 pads). -/
-theorem additive_mask_loop_range (n i : Nat) (hi : i < n) :
-    maskLoopCoded (List.replicate n 32) i 64 0 = if 33 ≤ n then some 32 else none :=
-  Mps.OT.additive_mask_loop_range n i hi
+/-- **The masking loops of `AdditiveOTReceiver.Round2` are in range for every batch.** The loop as
+    it now stands takes its bound from pad `i` itself: for any number of pads, any pad lengths and
+    every pad index of the batch it ends normally after masking exactly the bytes of pad `i`
+    (`none` would be a Go index-out-of-range panic). So `additive_sum` — which is about the
+    scalar-level function the loops compute when in range — applies to every batch size. -/
+theorem additive_mask_loop_in_range (lens : List Nat) (i : Nat) (hi : i < lens.length) (fuel : Nat)
+    (hf : lens[i] ≤ fuel) :
+    maskLoopCoded lens i fuel 0 = some lens[i] :=
+  Mps.OT.additive_mask_loop_in_range lens i hi fuel hf
+
+/-- Witness of the defect repaired by /repo commit eab5a8f: the loop as it stood before (bound taken
+    from pad number `j`, the byte counter) stayed in range on an honest message iff the batch had at
+    least 33 pads; every smaller honest batch panicked. -/
+theorem additive_mask_loop_range_old (n i : Nat) (hi : i < n) :
+    maskLoopCodedOld (List.replicate n 32) i 64 0 = if 33 ≤ n then some 32 else none :=
+  Mps.OT.additive_mask_loop_range_old n i hi
 
 /-! ### 5. a message altered in one field -/
 
 section domain
 variable {F : Type} [CommRing F] [IsDomain F] [DecidableEq F] (repr : F → Nat)
 
-/-- The honest sender's message reaches the receiver with ONE field changed (one component of one
-    combined pad, one entry of RCheck, or UCheck; any new value). Then the receiver's second round
-    ends in "integrity check failed" or returns exactly the share of the unaltered run — so the two
-    outputs still add up to α·β. Needs only χ₀ ≠ 0. (Changes of a slice LENGTH are outside this
-    statement: there the real code panics, see the findings of suite `ot`.) -/
+/-- The honest sender's message reaches the receiver with ONE field changed: the value of one
+    component of one combined pad, of one entry of RCheck, or of UCheck (any new value), or the
+    LENGTH of CombinedPads or of RCheck (truncated, extended, any other vector). Then the receiver's
+    second round ends in an error ("malformed message" / "incorrect batch size" / "integrity check
+    failed") or returns exactly the share of the unaltered run — so the two outputs still add up to
+    α·β. Needs only χ₀ ≠ 0. -/
 theorem multiply_single_alteration (h : OTHash F) (hchi : ChiOK h) (ss : CorreSendSetup)
     (rs : CorreRecvSetup) (hrel : SetupRel ss rs) (alpha alpha1 beta : F) (gamma extra : Nat)
     (hchi0 : (h.mchi (mulReceiverRound1 (lawful F repr) h rs beta gamma extra).2.1.U).1 ≠ 0) :
@@ -473,6 +482,9 @@ theorem gen_correReceive : MpsGen.OT.correReceive = [
 /-- the statements of the Go function the model transcribes -/
 theorem gen_extSend : MpsGen.OT.extSend = [
     "inflatedBatchSize := batchSize + params.OTParam + params.StatParam",
+    "if msg == nil || msg.CorreMsg == nil {",
+    "return nil, fmt.Errorf(\"ExtendedOTSend: nil message\")",
+    "}",
     "correResult, err := CorreOTSend(ctxHash, setup, inflatedBatchSize, msg.CorreMsg)",
     "if err != nil {",
     "return nil, err",
@@ -553,6 +565,9 @@ theorem gen_extReceive : MpsGen.OT.extReceive = [
 
 /-- the statements of the Go function the model transcribes -/
 theorem gen_additiveSend : MpsGen.OT.additiveSend = [
+    "if msg == nil || msg.Msg == nil {",
+    "return nil, nil, errors.New(\"AdditiveOTSender Round1: nil message\")",
+    "}",
     "extendedResult, err := ExtendedOTSend(r.ctxHash, r.setup, r.batchSize, msg.Msg)",
     "if err != nil {",
     "return nil, nil, err",
@@ -590,6 +605,9 @@ theorem gen_additiveSend : MpsGen.OT.additiveSend = [
 /-- the statements of the Go function the model transcribes -/
 theorem gen_additiveRecv : MpsGen.OT.additiveRecv = [
     "batchSize := 8 * len(r.choices)",
+    "if msg == nil || len(msg.CombinedPads) != batchSize {",
+    "return nil, errors.New(\"AdditiveOTReceiver Round2: incorrect batch size in message\")",
+    "}",
     "result := make([][2]curve.Scalar, batchSize)",
     "prg := blake3.New()",
     "for i := 0; i < batchSize; i++ {",
@@ -599,10 +617,10 @@ theorem gen_additiveRecv : MpsGen.OT.additiveRecv = [
     "digest := prg.Digest()",
     "result[i][0] = sample.Scalar(digest, r.group).Negate()",
     "result[i][1] = sample.Scalar(digest, r.group).Negate()",
-    "for j := 0; j < len(msg.CombinedPads[j][0]); j++ {",
+    "for j := 0; j < len(msg.CombinedPads[i][0]); j++ {",
     "msg.CombinedPads[i][0][j] &= mask",
     "}",
-    "for j := 0; j < len(msg.CombinedPads[j][1]); j++ {",
+    "for j := 0; j < len(msg.CombinedPads[i][1]); j++ {",
     "msg.CombinedPads[i][1][j] &= mask",
     "}",
     "combinedPad0 := r.group.NewScalar()",
@@ -679,6 +697,9 @@ theorem gen_newMultiplyReceiver : MpsGen.OT.newMultiplyReceiver = [
 
 /-- the statements of the Go function the model transcribes -/
 theorem gen_mulSendRound1 : MpsGen.OT.mulSendRound1 = [
+    "if msg == nil || msg.Msg == nil {",
+    "return nil, nil, errors.New(\"multiply send round 1: nil message\")",
+    "}",
     "additiveMsg, result, err := r.sender.Round1(msg.Msg)",
     "if err != nil {",
     "return nil, nil, err",
@@ -704,6 +725,14 @@ theorem gen_mulSendRound1 : MpsGen.OT.mulSendRound1 = [
 
 /-- the statements of the Go function the model transcribes -/
 theorem gen_mulRecvRound2 : MpsGen.OT.mulRecvRound2 = [
+    "if msg == nil || msg.Msg == nil || msg.UCheck == nil || len(msg.RCheck) != len(r.gadget) {",
+    "return nil, errors.New(\"multiply receive round 2: malformed message\")",
+    "}",
+    "for _, rc := range msg.RCheck {",
+    "if rc == nil {",
+    "return nil, errors.New(\"multiply receive round 2: malformed message\")",
+    "}",
+    "}",
     "result, err := r.receiver.Round2(msg.Msg)",
     "if err != nil {",
     "return nil, err",
@@ -806,7 +835,9 @@ example : ∀ i, i < 2 → ([5, 6] : List Nat).getD i 0 = if (2 : Nat).testBit i
   decide
 
 /-- a single-field alteration -/
-example : SingleAlt (F := ZMod 3) ⟨[(1, 2)], [1], 1⟩ ⟨[(1, 2)], [1], 2⟩ := SingleAlt.ucheck 2 rfl
+example : SingleAlt (F := ZMod 3) ⟨[(1, 2)], [1], 1⟩ ⟨[(1, 2)], [1], 2⟩ := SingleAlt.field (FieldAlt.ucheck 2 rfl)
+example : SingleAlt (F := ZMod 3) ⟨[(1, 2)], [1], 1⟩ ⟨[(1, 2)], [], 1⟩ := SingleAlt.rcLen [] (by decide) rfl
+example : (3 : Nat) < ([32, 31, 0, 40] : List Nat).length := by decide
 
 /-- 128-bit vectors exist -/
 example : (2 ^ 127 + 1 : Nat) < 2 ^ 128 := by decide
